@@ -1,3 +1,4 @@
+import Pdpy11.Props.C01
 import Pdpy11.Model.Insn
 import Pdpy11.Model.Directive
 import Pdpy11.Model.Defs
@@ -240,5 +241,171 @@ theorem warning_report_passes (h : Nat) (st : St) (log : List (Nat × Sev)) :
 
 example : (byteDir [1, 256]).run.r = .error .abort ∧ (byteDir [1, 256]).run.log.errs = ["value-out-of-bounds"] := ⟨rfl, rfl⟩
 example : (encodeRM (.index 70000 (.named 1)) 0).run.r = .error .abort := rfl
+
+/-! ## second part: the whole instruction encoder is loud -/
+open Pdpy11.Gen
+
+/-- bind with a postcondition on the intermediate result -/
+theorem loud_bind_post {α β : Type} (m : M α) (f : α → M β) (P : α → Prop) (hm : Loud m)
+    (hP : ∀ l a l', m l = ⟨.ok a, l'⟩ → P a) (hf : ∀ a, P a → Loud (f a)) : Loud (m >>= f) := by
+  intro l
+  have h1 := hm l
+  simp only [bind_apply]
+  cases hr : m l with
+  | mk r l' =>
+    rw [hr] at h1
+    cases r with
+    | ok a =>
+      simp only [] at h1 ⊢
+      have h2 := hf a (hP l a l' hr) l'
+      cases hr2 : f a l' with
+      | mk r2 l'' =>
+        rw [hr2] at h2
+        cases r2 with
+        | ok b => simp only [] at h2 ⊢; omega
+        | error e =>
+          cases e with
+          | abort => simp only [] at h2 ⊢; omega
+          | crash w => simp only [] at h2
+    | error e =>
+      cases e with
+      | abort => simpa using h1
+      | crash w => simp only [] at h1
+
+/-- the operand is of a class the stub's encoder handles (what `Classify` delivers) -/
+def Compatible (s : StubG) (op : Operand) : Prop :=
+  match s.cls with
+  | .register => True
+  | .registerMode => ∀ n, op ≠ .acc n
+  | .fp11rm => True
+  | .fp11acc => True
+  | .offset => ∃ t, op = .expr t
+  | .immediate => (∃ v, op = .imm v) ∨ (∃ v, op = .expr v)
+
+theorem loud_encodeFP11RM (op : Operand) (rel : Int) : Loud (encodeFP11RM op rel) := by
+  cases op with
+  | acc n => exact loud_pure _
+  | reg r =>
+    refine loud_bind _ _ (loud_regNum r) (fun n => ?_)
+    by_cases h : n < 6
+    · simp only [h, if_true]; exact loud_bind _ _ (loud_warn _) (fun _ => loud_pure _)
+    · simp only [h, if_false]; exact loud_bind _ _ (loud_err _) (fun _ => loud_pure _)
+  | regDef r legacy => exact loud_encodeRM _ rel (fun n => by simp)
+  | autoInc r => exact loud_encodeRM _ rel (fun n => by simp)
+  | autoIncDef r => exact loud_encodeRM _ rel (fun n => by simp)
+  | autoDec r => exact loud_encodeRM _ rel (fun n => by simp)
+  | autoDecDef r => exact loud_encodeRM _ rel (fun n => by simp)
+  | index x r => exact loud_encodeRM _ rel (fun n => by simp)
+  | indexDef x r => exact loud_encodeRM _ rel (fun n => by simp)
+  | indexDef0 r => exact loud_encodeRM _ rel (fun n => by simp)
+  | imm v => exact loud_encodeRM _ rel (fun n => by simp)
+  | abs v => exact loud_encodeRM _ rel (fun n => by simp)
+  | expr t => exact loud_pure _
+  | exprDef t => exact loud_pure _
+
+theorem loud_encodeStub (s : StubG) (op : Operand) (rel : Int) (h : Compatible s op) : Loud (encodeStub s op rel) := by
+  unfold encodeStub
+  unfold Compatible at h
+  cases hc : s.cls with
+  | register => simp only []; exact loud_bind _ _ (loud_encodeReg op) (fun _ => loud_pure _)
+  | registerMode =>
+    simp only [hc] at h
+    simp only []
+    exact loud_bind _ _ (loud_encodeRM op rel h) (fun _ => loud_pure _)
+  | fp11rm => simp only []; exact loud_bind _ _ (loud_encodeFP11RM op rel) (fun _ => loud_pure _)
+  | fp11acc => simp only []; exact loud_bind _ _ (loud_encodeAcc _ op) (fun _ => loud_pure _)
+  | offset =>
+    simp only [hc] at h
+    obtain ⟨t, rfl⟩ := h
+    simp only [encodeOffset]
+    refine loud_bind _ _ ?_ (fun _ => loud_pure _)
+    exact loud_bind _ _ (loud_forErr _) (fun _ => loud_pure _)
+  | immediate =>
+    simp only [hc] at h
+    simp only []
+    refine loud_bind _ _ ?_ (fun _ => loud_pure _)
+    have hjp : ∀ v : Int, Loud (match immField s.bits.length s.unsigned v with
+        | (f, es) => (do
+          forIn es PUnit.unit (fun e _ => do err e; pure (ForInStep.yield PUnit.unit))
+          pure f : M Int)) := by
+      intro v
+      cases immField s.bits.length s.unsigned v with
+      | mk f es => exact loud_bind _ _ (loud_forErr es) (fun _ => loud_pure f)
+    rcases h with ⟨v, rfl⟩ | ⟨v, rfl⟩
+    · unfold encodeImm
+      simp only []
+      exact loud_bind _ _ (loud_warn _) (fun _ => loud_bind _ _ (loud_pure _) (fun v' => hjp v'))
+    · unfold encodeImm
+      simp only []
+      exact loud_bind _ _ (loud_pure _) (fun v' => hjp v')
+
+theorem loud_encodeOperands (emit : Int) (pairs : List (StubG × Operand)) (hc : ∀ x ∈ pairs, Compatible x.1 x.2)
+    (repl : List (StubG × Int)) (ext : List Nat) : Loud (encodeOperands emit pairs repl ext) := by
+  induction pairs generalizing repl ext with
+  | nil => exact loud_pure _
+  | cons x rest ih =>
+    obtain ⟨s, op⟩ := x
+    unfold encodeOperands
+    refine loud_bind _ _ (loud_encodeStub s op _ (hc (s, op) (by simp))) (fun ve => ?_)
+    obtain ⟨v, e⟩ := ve
+    exact ih (fun y hy => hc y (by simp [hy])) _ _
+
+/-- the replacements handed to `get_opcode` are the stubs in order, each with some value -/
+theorem encodeOperands_shape (emit : Int) (pairs : List (StubG × Operand)) (repl : List (StubG × Int)) (ext : List Nat)
+    (l l' : Log) (r : List (StubG × Int)) (x : List Nat) (h : encodeOperands emit pairs repl ext l = ⟨.ok (r, x), l'⟩) :
+    ∃ vs : List Int, vs.length = pairs.length ∧ r = repl ++ (pairs.map Prod.fst).zip vs := by
+  induction pairs generalizing repl ext l with
+  | nil =>
+    simp only [encodeOperands, pure_apply] at h
+    injection h with h1 _
+    injection h1 with h1
+    injection h1 with hr _
+    exact ⟨[], rfl, by simp [hr]⟩
+  | cons y rest ih =>
+    obtain ⟨s, op⟩ := y
+    simp only [encodeOperands, bind_apply] at h
+    cases hs : encodeStub s op (emit + 2 + 2 * ext.length) l with
+    | mk res l1 =>
+      rw [hs] at h
+      cases res with
+      | error e => simp at h
+      | ok ve =>
+        obtain ⟨v, e⟩ := ve
+        simp only [] at h
+        obtain ⟨vs, hlen, hr⟩ := ih (repl ++ [(s, v)]) (ext ++ e) l1 h
+        refine ⟨v :: vs, by simp [hlen], ?_⟩
+        rw [hr]
+        simp
+
+/-- **The instruction encoder never fails silently and never ends in an internal error**: for
+every entry of the regenerated table, any operands of the classes its stubs expect (any number of
+them), at any address. -/
+theorem loud_compileInsn (e : InsnG) (he : e ∈ Gen.opcodes) (ops : List Operand) (emit : Int)
+    (hc : ∀ x ∈ e.stubs.zip ops, Compatible x.1 x.2) : Loud (compileInsn e ops emit) := by
+  unfold compileInsn
+  by_cases hlen : ops.length ≠ e.stubs.length
+  · rw [if_pos hlen]
+    exact loud_bind _ _ (loud_err _) (fun _ => loud_pure _)
+  · rw [if_neg hlen]
+    have hlen' : ops.length = e.stubs.length := by omega
+    have hw := (List.all_eq_true.mp Pdpy11.Props.C01.wiring_ok_all) e he
+    refine loud_bind_post _ _ (fun ra => ∃ vs : List Int, vs.length = e.stubs.length ∧ ra.1 = e.stubs.zip vs)
+      (loud_encodeOperands emit _ hc [] []) ?_ ?_
+    · intro l a l' h
+      obtain ⟨r, x⟩ := a
+      obtain ⟨vs, hl, hr⟩ := encodeOperands_shape emit _ [] [] l l' r x h
+      refine ⟨vs, ?_, ?_⟩
+      · rw [hl]; simp [hlen']
+      · simp only [hr, List.nil_append]
+        congr 1
+        exact List.map_fst_zip (by omega)
+    · intro a hP
+      obtain ⟨r, x⟩ := a
+      obtain ⟨vs, hl, hr⟩ := hP
+      simp only [] at hr
+      obtain ⟨base, slots, _, hG⟩ := Pdpy11.Props.C01.getOpcode_numeric e hw vs hl
+      simp only [hr, hG]
+      exact loud_pure _
+
 
 end Pdpy11.Props.C08
